@@ -469,6 +469,15 @@ func (e *Engine) ctxDone(o *Object) *ChanV {
 }
 
 func (e *Engine) ctxCancel(o *Object) {
+	if e.threads != nil {
+		ti := e.threads.impl
+		th := ti.curThr()
+		th.op = pendingOp{}
+		ti.schedule(th) // visible operation
+		o.Cancelled = e.tb.True
+		ti.onCancel(e, o)
+		return
+	}
 	g := e.tb.And(e.G, e.tb.Not(e.ctxCancelled(o)))
 	o.Cancelled = e.tb.Or(o.Cancelled, e.G)
 	// AfterFunc callbacks become parked goroutines
